@@ -496,5 +496,8 @@ def run(ctx):
     import c14
 
     ctx.include("C01.15", "discharges `NonEmptyVec from a version range that is never empty` (update_declarations): the versions declared for a local are the whole range, or 0..1 when there is none (shared with C14.6)", c14.rule_declarations, only=["local-versions", "locals-all-versions", "declares-every-version", "statement-lists-the-versions"])
+    import c10
+
+    ctx.include("C01.16", "discharges `variable already tracked by declaration map` (Declarations::add_declaration, reached while lifting): every declaration of every type - variable, signal, component - is recorded and renamed apart from a visible one of the same name before the lifting sees it (shared with C10.4)", c10.rule_shadowing)
     ctx.include("C01.9", "discharges Meta::get_file_id and the renderer's label assertion: every node gets its file id, spans are ordered token boundaries (shared with C04.4/C04.5)", c04.rule_grammar_spans, c04.rule_fill)
     ctx.include("C01.10", "discharges indexing of template arguments: an instantiation is inspected only after its name and arity were tested (shared with C11.3)", lambda c: c11.rule_thresholds(c, c11.rule_primes(c) or {}), only=["name-and-arity", "update_components", "size-is-first-argument", "table/no-panic", "table/nothing-else-flagged"])
